@@ -1241,3 +1241,74 @@ package gogu
 //@   invariant forall j int :: 0 <= j && j < $i ==> !call(fn, m[keys[j]])
 //@   invariant forall a int, b int :: 0 <= a && a < b && b < len(keys) ==> keys[a] <= keys[b]
 //@   invariant forall k2 K :: k2 in m ==> exists p int :: 0 <= p && p < len(keys) && keys[p] == k2
+
+// ---------------------------------------------------------------- C18: call-count wrappers
+
+//@ func gogu.After
+//@   property C18
+//@   calllog impure
+//@   arith checked
+//@   requires n != nil && fn != nil && deref(n) > Tmin_V
+//@   modifies *n
+//@   ensures deref(n) == old(deref(n)) - 1
+//@   ensures old(deref(n)) < 1 ==> logn == old(logn) + 1 && logf(old(logn)) == fn
+//@   ensures old(deref(n)) >= 1 ==> logn == old(logn)
+
+//@ func gogu.Before
+//@   property C18
+//@   calllog impure
+//@   arith checked
+//@   requires n != nil && fn != nil && deref(n) > Tmin_V && c != nil && c.cache != nil && c.items != nil && (forall k S :: { c.items[k] } k in c.items ==> c.items[k] != nil)
+//@   modifies *n, map(c.items)
+//@   ensures deref(n) == old(deref(n)) - 1
+//@   ensures old(deref(n)) - 1 >= 0 ==> logn == old(logn) + 1 && logf(old(logn)) == fn
+//@   ensures old(deref(n)) - 1 > 0 ==> result == logr0(old(logn), result) && (forall k S :: { c.items[k] } ((k in c.items) <==> old(k in c.items)) && c.items[k] == old(c.items[k]))
+//@   ensures old(deref(n)) - 1 == 0 && !old("func" in c.items) && !isEmptyString(logr0(old(logn), result)) && c.expTime <= 0 ==> result == logr0(old(logn), result)
+//@   ensures old(deref(n)) - 1 < 0 ==> logn == old(logn)
+//@   ensures old(deref(n)) - 1 < 0 && old("func" in c.items) && old(c.items["func"].expiration) <= 0 ==> result == old(c.items["func"].object)
+//@   ensures old(deref(n)) - 1 < 0 && !old("func" in c.items) ==> result == zero
+
+//@ func gogu.Once
+//@   property C18
+//@   calllog impure
+//@   requires fn != nil && c != nil && c.cache != nil && c.items != nil && (forall k S :: { c.items[k] } k in c.items ==> c.items[k] != nil)
+//@   modifies map(c.items)
+//@   ensures !old("func" in c.items) ==> logn == old(logn) + 1 && logf(old(logn)) == fn && result == logr0(old(logn), result)
+//@   ensures old("func" in c.items) && old(c.items["func"].expiration) <= 0 ==> logn == old(logn) && result == old(c.items["func"].object)
+//@   ensures logn <= old(logn) + 1
+
+//@ func (gogu.RType).Retry
+//@   property C18
+//@   calllog impure
+//@   requires fn != nil
+//@   ensures n < 0 ==> result1 != nil && result0 == 0 && logn == old(logn)
+//@   ensures n >= 0 ==> logn - old(logn) <= n && forall j int :: { logf(j) } old(logn) <= j && j < logn ==> logf(j) == fn && loga0(j, v.Input) == v.Input
+//@   ensures n >= 0 ==> forall j int :: { logr0(j, result1) } old(logn) <= j && j < logn - 1 ==> logr0(j, result1) != nil
+//@   ensures n >= 0 && result1 == nil && n > 0 ==> logn > old(logn) && logr0(logn - 1, result1) == nil && result0 == logn - old(logn) - 1
+//@   ensures n >= 0 && result1 != nil ==> logn - old(logn) == n && result0 == n && result1 == logr0(logn - 1, result1)
+//@   ensures n == 0 ==> logn == old(logn) && result0 == 0 && result1 == nil
+//@ loop 1
+//@   invariant n >= 0 && 0 <= attempt && attempt <= n && logn == old(logn) + attempt
+//@   invariant forall j int :: { logf(j) } old(logn) <= j && j < logn ==> logf(j) == fn && loga0(j, v.Input) == v.Input
+//@   invariant forall j int :: { logr0(j, err) } old(logn) <= j && j < logn ==> logr0(j, err) != nil
+//@   invariant attempt == 0 ==> err == nil
+//@   invariant attempt > 0 ==> err == logr0(logn - 1, err)
+
+//@ func (gogu.RType).RetryWithDelay
+//@   property C18
+//@   calllog impure
+//@   requires fn != nil
+//@   ensures logn - old(logn) <= (n < 0 ? 0 : n) && forall j int :: { logf(j) } old(logn) <= j && j < logn ==> logf(j) == fn && loga1(j, v.Input) == v.Input
+//@   ensures forall j int :: { logr0(j, result2) } old(logn) <= j && j < logn - 1 ==> logr0(j, result2) != nil
+//@   ensures forall j int :: { logt1(j) } old(logn) <= j && j < logn - 1 ==> logt0(j + 1) - logt1(j) >= delay
+//@   ensures result2 == nil && n > 0 ==> logn > old(logn) && logr0(logn - 1, result2) == nil && result1 == logn - old(logn) - 1
+//@   ensures result2 != nil ==> logn - old(logn) == n && result1 == n && result2 == logr0(logn - 1, result2)
+//@   ensures n <= 0 ==> logn == old(logn) && result1 == 0 && result2 == nil
+//@ loop 1
+//@   invariant 0 <= attempt && (attempt <= n || attempt == 0) && logn == old(logn) + attempt
+//@   invariant forall j int :: { logf(j) } old(logn) <= j && j < logn ==> logf(j) == fn && loga1(j, v.Input) == v.Input
+//@   invariant forall j int :: { logr0(j, err) } old(logn) <= j && j < logn ==> logr0(j, err) != nil
+//@   invariant forall j int :: { logt1(j) } old(logn) <= j && j < logn - 1 ==> logt0(j + 1) - logt1(j) >= delay
+//@   invariant attempt > 0 ==> now - logt1(logn - 1) >= delay
+//@   invariant attempt == 0 ==> err == nil
+//@   invariant attempt > 0 ==> err == logr0(logn - 1, err)
